@@ -534,3 +534,36 @@ Definition write_to (fmt compat : N) (m : meta) (dbis : list bytes) : bytes :=
 Definition custom_encode (s : snap) : res bytes :=
   do pbs <- mapM (fun x => do d <- build_dbi x; do (b, _) <- dbi_marshal d; Ok b) (s_dbis s);
   Ok (write_to (s_fmt s) (s_compat s) (s_meta s) pbs).
+
+(* ---- the snapshots the encoder is specified for (hypothesis of C07_roundtrip) ----
+   keys non-empty (LMDB keys are), DBI names 1..511 bytes (LMDB's limit) and transform names up to 472
+   bytes (so that doFlushFields' 1000-byte scratch buffer holds name + flags + transform in every case),
+   transaction ids >= 0 (negative ones are not written), values inside their Go types, Meta strings
+   below csproto's default 2 GB field limit, and every DBI message at most snapshot.MaxFieldLength
+   (100 GB) — which also bounds every key and value length. *)
+
+(* Go: msgSize in DBI.Append *)
+Definition kv_size (e : kv) : N :=
+  (if Nat.ltb 0 (length (k_key e)) then 1 + sizeof_varint (lenN (k_key e)) + lenN (k_key e) else 0)
+  + (if Nat.ltb 0 (length (k_val e)) then 1 + sizeof_varint (lenN (k_val e)) + lenN (k_val e) else 0)
+  + (if 0 <? k_flags e then 1 + sizeof_varint (k_flags e) else 0)
+  + (if 0 <? k_ts e then 1 + 8 else 0).
+(* the size of a marshalled DBI: the flushed top-level fields, then outerSize of every appended entry *)
+Definition dbi_size (d : dbi) : N :=
+  (if Nat.ltb 0 (length (db_name d)) then 1 + sizeof_varint (lenN (db_name d)) + lenN (db_name d) else 0)
+  + (if 0 <? db_flags d then 1 + sizeof_varint (db_flags d) else 0)
+  + (if Nat.ltb 0 (length (db_transform d)) then 1 + sizeof_varint (lenN (db_transform d)) + lenN (db_transform d) else 0)
+  + sumN (fun e => if kv_size e =? 0 then 0 else 1 + sizeof_varint (kv_size e) + kv_size e) (db_entries d).
+
+Definition kv_valid (e : kv) : bool :=
+  Nat.ltb 0 (length (k_key e)) && (k_flags e <? two32) && (k_ts e <? two64).
+Definition dbi_valid (d : dbi) : bool :=
+  Nat.ltb 0 (length (db_name d)) && (lenN (db_name d) <=? 511) && (lenN (db_transform d) <=? 472)
+  && (db_flags d <? two64) && forallb kv_valid (db_entries d) && (dbi_size d <=? MaxFieldLength).
+Definition meta_valid (m : meta) : bool :=
+  (0 <=? m_txn m)%Z && (m_txn m <? Z.of_N two63)%Z && (0 <=? m_from m)%Z && (m_from m <? Z.of_N two63)%Z
+  && (m_ts m <? two64)
+  && (lenN (m_gen m) <=? MaxFieldLenDefault) && (lenN (m_inst m) <=? MaxFieldLenDefault)
+  && (lenN (m_host m) <=? MaxFieldLenDefault) && (lenN (m_dbname m) <=? MaxFieldLenDefault).
+Definition valid (s : snap) : bool :=
+  (s_fmt s <? two32) && (s_compat s <? two32) && meta_valid (s_meta s) && forallb dbi_valid (s_dbis s).
